@@ -25,11 +25,11 @@ ENGINES = [
 
 META = {
     'C11': dict(
-        text="Kernel-checked theorems (lean/XV/Props/C11.lean, lemmas in lean/XV/Lemmas/Acl.lean) about the model of IdentifyAccount / CheckContractMethodPerm after the repair 'a key inside a signer uri counts only as its last component' (repo commit 8beb18f): eval_eq_spec / eval_eq_spec_method - for every rule environment with distinct member names, every URI list and every nesting bound the evaluation accepts exactly when sat holds (sum of the weights of the members that are verified >= threshold, or a listed non-empty key set consists of verified names), where a key is verified iff some URI ends with it at that level and a nested account iff a URI delegates through it and its own rule is satisfied below; eval_flat_threshold / eval_flat_sets (the same spelled out for rules over keys); eval_monotone(_method) for non-negative weights (eval_monotone_needs_nonneg: the hypothesis is necessary); dup_irrelevant(_method) and repeated_uri_irrelevant (the result depends only on the SET of URIs); outsiders_irrelevant (URIs of other accounts), nonmember_irrelevant, nonterminal_key_irrelevant (the statement the code violated before the repair: v0_counts_nonterminal_key, v0_violates_spec, repaired_rejects_nonterminal_key); acl_change_needs_owner (verifyRWSetPermission accepts a write to XCAccount/<A>, XCContract/<c>.<m> or XCContract2Account only if the rule in force of the owning account is satisfied by AuthRequire, or the owner was already identified with the same AuthRequire). Nothing is partial. Tie: exhaustive small-universe correspondence (every rule pair x all URI multisets of size <= 4 over a 14-URI alphabet, 76 million cases in the thorough tier) of the real code with the model, with a literal tree/BFS model, and with an independent Go oracle of sat; random larger cases; the real State.verifyRWSetPermission on a real ledger.",
+        text="Kernel-checked theorems (lean/XV/Props/C11.lean, lemmas in lean/XV/Lemmas/Acl.lean) about the model of IdentifyAccount / CheckContractMethodPerm after the repair 'a key inside a signer uri counts only as its last component' (repo commit b704358): eval_eq_spec / eval_eq_spec_method - for every rule environment with distinct member names, every URI list and every nesting bound the evaluation accepts exactly when sat holds (sum of the weights of the members that are verified >= threshold, or a listed non-empty key set consists of verified names), where a key is verified iff some URI ends with it at that level and a nested account iff a URI delegates through it and its own rule is satisfied below; eval_flat_threshold / eval_flat_sets (the same spelled out for rules over keys); eval_monotone(_method) for non-negative weights (eval_monotone_needs_nonneg: the hypothesis is necessary); dup_irrelevant(_method) and repeated_uri_irrelevant (the result depends only on the SET of URIs); outsiders_irrelevant (URIs of other accounts), nonmember_irrelevant, nonterminal_key_irrelevant (the statement the code violated before the repair: v0_counts_nonterminal_key, v0_violates_spec, repaired_rejects_nonterminal_key); acl_change_needs_owner (verifyRWSetPermission accepts a write to XCAccount/<A>, XCContract/<c>.<m> or XCContract2Account only if the rule in force of the owning account is satisfied by AuthRequire, or the owner was already identified with the same AuthRequire). Nothing is partial. Tie: exhaustive small-universe correspondence (every rule pair x all URI multisets of size <= 4 over a 14-URI alphabet, 76 million cases in the thorough tier) of the real code with the model, with a literal tree/BFS model, and with an independent Go oracle of sat; random larger cases; the real State.verifyRWSetPermission on a real ledger.",
         design_ref='DESIGN.md §6 C11',
         note="Trusted: Lean kernel, the harness. The pointer tree and the reverse-BFS order of validatePermTree are abstracted as recursion over URI prefixes; a literal tree model is cross-checked on every executed case but its equivalence with the trie model is not proved. Signature verification itself belongs to C07. Not covered: float64 summation order for non-dyadic weights; error paths for malformed ACLs / empty names; end-to-end State.VerifyTx (only verifyRWSetPermission is driven on a real State).",
         technique='Lean 4 proof over a hand model of the permission trie and validators; exhaustive small-universe differential correspondence with the real code; independent Go oracle of the specification',
     ),
 }
 
-HOOK_COMMITS = ['c0370f9 verif hook: export verifyRWSetPermission and an unverified xmodel write for the verification harness (build tag verif)']
+HOOK_COMMITS = ['a9c0950 verif hook: export verifyRWSetPermission and an unverified xmodel write for the verification harness (build tag verif)']
